@@ -430,8 +430,11 @@ func (MonC15) State(x *Exec) *Violation {
 			continue
 		}
 		res := false
-		if p := safely(func() { res = d.Delete(k) }); p != "" || res {
-			continue // faulty: owned by C01
+		if p := safely(func() { res = d.Delete(k) }); p != "" {
+			return viol(fmt.Sprintf("Delete(%s) of an absent key, content %s", u.KeyStr[k], x.Ref), "returns false and leaves the tree untouched", "panic: "+p)
+		}
+		if res {
+			return viol(fmt.Sprintf("Delete(%s) of an absent key, content %s", u.KeyStr[k], x.Ref), "returns false and leaves the tree untouched", "returned true; tree now "+DumpString(d.Dump()))
 		}
 		if v := check(fmt.Sprintf("Delete(%s) of an absent key", u.KeyStr[k])); v != nil {
 			return v
